@@ -229,8 +229,16 @@ class QuicPacketBuilder:
         else:
             header_size = 3 + len(self._peer_cid)
 
-        # check we have enough space
-        if packet_start + header_size >= self._buffer_capacity:
+        # check we have enough space for the header, the smallest payload
+        # (see the sample size padding in _end_packet) and the AEAD tag
+        if (
+            packet_start
+            + header_size
+            + PACKET_NUMBER_MAX_SIZE
+            - PACKET_NUMBER_SEND_SIZE
+            + crypto.aead_tag_size
+            > self._buffer_capacity
+        ):
             raise QuicPacketBuilderStop
 
         # determine ack epoch
